@@ -27,6 +27,16 @@ vars == <<l, bad, div, nontrivial>>
 AuthnNames(c) == {c.authn[i].n : i \in 1..Len(c.authn)}
 AuthnExec(c, exec) == SelectSeq(exec, LAMBDA n : n \in AuthnNames(c))
 
+SupportedCT == {"text/html", "application/json", "text/plain", "application/xml"}
+
+(* content types acceptable for the Accept header classes the driver uses *)
+AcceptableCT(a) ==
+  CASE a \in {"", "*/*"} -> SupportedCT
+    [] a \in SupportedCT -> {a}
+    [] a = "application/xml;q=0.5, application/json;q=0.9" -> {"application/json"}
+    [] a = "text/*" -> {"text/html", "text/plain"}
+    [] OTHER -> {}
+
 Violations(c, exp) ==
   LET o == c.obs IN
   CASE Prop = "C01" ->
@@ -46,6 +56,10 @@ Violations(c, exp) ==
             \cup (IF o.location # exp.location THEN {"location-header-differs"} ELSE {})
             \cup (IF exp.www /\ ~o.www THEN {"www-authenticate-missing"} ELSE {})
             \cup (IF IsSuccessStatus(o.status) THEN {"failure-with-success-status"} ELSE {})
+            \cup (IF o.body /\ ~c.verbose THEN {"body-without-verbose"} ELSE {})
+            \cup (IF o.body /\ c.verbose /\ ~(c.entry = "envoy" /\ AcceptableCT(c.accept) = {})
+                      /\ o.ct \notin AcceptableCT(c.accept)
+                   THEN {"content-type-not-negotiated"} ELSE {})
 
 Diverges(c, exp) ==
   LET o == c.obs IN
